@@ -217,11 +217,8 @@ COCONSTRAINTS[('2.1', 'Location')].append(lambda d, errs, path: errs.append(f'{p
                                           if not ('region' in d or 'country' in d or ('latitude' in d and 'longitude' in d)) else None)
 COCONSTRAINTS[('2.1', 'Location')].append(lambda d, errs, path: errs.append(f'{path}: latitude and longitude must come together') if ('latitude' in d) != ('longitude' in d) else None)
 COCONSTRAINTS[('2.1', 'Malware')].append(lambda d, errs, path: errs.append(f'{path}: a malware family needs a name') if d.get('is_family') is True and 'name' not in d else None)
-# STIX 2.0 states the same order rules for the types that have these properties (Part 2: indicator valid_until > valid_from,
-# observed-data last_observed >= first_observed, sighting last_seen >= first_seen)
-COCONSTRAINTS[('2.0', 'Indicator')].append(order('valid_from', 'valid_until', True))
-COCONSTRAINTS[('2.0', 'ObservedData')].append(order('first_observed', 'last_observed', False))
-COCONSTRAINTS[('2.0', 'Sighting')].append(order('first_seen', 'last_seen', False))
+# STIX 2.0: whether Part 2 states the same order rules for indicator/observed-data/sighting is not certain from memory of the
+# text; the permissive reading is taken (not enforced), see DESIGN section 4.
 
 
 def validate(d, ver, cat):
